@@ -8,22 +8,29 @@ Require Import Generated PyBase PyStr Lex Symbols Merge ParseEq GLex GLexFacts G
 Open Scope string_scope.
 Open Scope nat_scope.
 
+Section Lay.
+Variable lay : layout.
+Notation dtext := (dtext lay).
+Notation dflat := (dflat lay).
+Notation dtok_ok := (dtok_ok lay).
+Notation dwf_k := (dwf_k lay).
+
 Definition dmatch (x : ntok) : tmatch :=
   match x with
-  | NTerm name i => mkMatch KVariable name (Some (didx i)) (String.length (dtext x))
+  | NTerm name i => mkMatch KVariable name (Some (didx lay name i)) (String.length (dtext x))
   | _ => ntok_match x
   end.
 Definition dpiece (x : ntok) : piece := match x with NChr c => PChr c | _ => PTok (dtext x) (dmatch x) end.
 Definition dpieces (l : list ntok) : list piece := map dpiece l.
 
 Lemma dflat_pieces l : flat (dpieces l) = dflat l.
-Proof. unfold dpieces. induction l as [|x l IH]; [reflexivity|]. destruct x; cbn [map dpiece flat dflat dtext ntok_text]; rewrite IH; reflexivity. Qed.
+Proof. unfold dpieces. induction l as [|x l IH]; [reflexivity|]. destruct x; cbn [map dpiece flat Denorm.dflat Denorm.dtext ntok_text]; rewrite IH; reflexivity. Qed.
 Lemma dflat_app a b : dflat (a ++ b) = dflat a ++ dflat b.
-Proof. induction a as [|x a IH]; [reflexivity|]. cbn [dflat app]. rewrite IH, sapp_assoc. reflexivity. Qed.
+Proof. induction a as [|x a IH]; [reflexivity|]. cbn [Denorm.dflat app]. rewrite IH, sapp_assoc. reflexivity. Qed.
 Lemma dwf_k_app pw a b k : dwf_k pw (a ++ b) k = dwf_k pw a (dflat b ++ k) && dwf_k (last_word pw (dflat a)) b k.
 Proof.
   revert pw. induction a as [|x a IH]; intros pw; [reflexivity|].
-  cbn [app dwf_k dflat]. rewrite IH, dflat_app, sapp_assoc, last_word_app, andb_assoc. reflexivity.
+  cbn [app Denorm.dwf_k Denorm.dflat]. rewrite IH, dflat_app, sapp_assoc, last_word_app, andb_assoc. reflexivity.
 Qed.
 
 Lemma dtok_lex pw x rest :
@@ -34,19 +41,20 @@ Lemma dtok_lex pw x rest :
   end.
 Proof.
   destruct x as [name i|name|k|body|c]; try (exact (ntok_lex pw _ rest)).
-  cbn [dtok_ok dtext dmatch mlen]. intros H. apply andb_true_iff in H as [H _]. apply andb_true_iff in H as [H Hi].
-  apply andb_true_iff in H as [Hid Hkw].
+  cbn [Denorm.dtok_ok Denorm.dtext dmatch mlen]. unfold didx. destruct (lay name i) as [[w1 w2] plus].
+  intros H. apply andb_true_iff in H as [H _]. apply andb_true_iff in H as [H B2]. apply andb_true_iff in H as [H B1].
+  apply andb_true_iff in H as [H Hi]. apply andb_true_iff in H as [Hid Hkw].
   split; [apply app_ne, (ident_ne _ Hid)|]. split; [reflexivity|].
-  pose proof (match_here_var_idx pw name "" (didx i) "" rest Hid Hkw eq_refl eq_refl Hi) as M.
+  pose proof (match_here_var_idx pw name w1 (ibody plus i) w2 rest Hid Hkw B1 B2 Hi) as M.
   rewrite sapp_assoc.
-  replace (("[" ++ didx i ++ "]") ++ rest) with (idx_text "" (didx i) "" ++ rest) by (unfold idx_text; cbn [append]; reflexivity).
-  rewrite M. f_equal. f_equal. rewrite slen_app. unfold idx_text. cbn [append]. reflexivity.
+  replace (("[" ++ w1 ++ ibody plus i ++ w2 ++ "]") ++ rest) with (idx_text w1 (ibody plus i) w2 ++ rest) by (unfold idx_text; reflexivity).
+  rewrite M. f_equal. f_equal. rewrite slen_app. unfold idx_text. reflexivity.
 Qed.
 
 Theorem dwf_lex_ok l : forall pw, dwf_k pw l "" = true -> lex_ok pw (dpieces l).
 Proof.
   induction l as [|x l IH]; intros pw H; [exact I|].
-  cbn [dwf_k] in H. apply andb_true_iff in H as [Hx Hr]. rewrite sapp_nil_r in Hx.
+  cbn [Denorm.dwf_k] in H. apply andb_true_iff in H as [Hx Hr]. rewrite sapp_nil_r in Hx.
   pose proof (dtok_lex pw x (dflat l) Hx) as L.
   destruct x as [name i|name|kw|body|c]; cbn [dpieces map dpiece lex_ok]; fold (dpieces l); rewrite dflat_pieces.
   1-4: destruct L as (Hne & Hlen & Hm); repeat split; try assumption; apply (IH _ Hr).
@@ -61,10 +69,11 @@ Lemma mk_term_dmatch pw x rest t :
   dtok_ok pw x rest = true -> tok_term TVariable x = Some t -> mk_term (dmatch x) = Ret t.
 Proof.
   destruct x as [name i|name|k|body|c]; cbn [tok_term dmatch ntok_match]; intros H E; inversion E; subst; clear E.
-  - cbn [dtok_ok] in H. apply andb_true_iff in H as [_ Hq]. unfold mk_term. cbn [mkind mindex mname kind_type].
-    destruct i as [z|s]; cbn [didx].
-    + rewrite (mk_index_dz z Hq). reflexivity.
-    + unfold mk_index. rewrite Hq. reflexivity.
+  - cbn [Denorm.dtok_ok] in H. unfold didx. destruct (lay name i) as [[w1 w2] plus].
+    apply andb_true_iff in H as [_ Hq]. unfold mk_term. cbn [mkind mindex mname kind_type].
+    destruct i as [z|s].
+    + rewrite (mk_index_ibody plus z Hq). reflexivity.
+    + cbn [ibody]. unfold mk_index. rewrite Hq. reflexivity.
   - reflexivity.
   - reflexivity.
   - reflexivity.
@@ -73,7 +82,7 @@ Qed.
 Lemma dterms_pieces l : forall pw, dwf_k pw l "" = true -> map_o mk_term (piece_matches (dpieces l)) = Ret (tok_terms TVariable l).
 Proof.
   induction l as [|x l IH]; intros pw H; [reflexivity|].
-  cbn [dwf_k] in H. apply andb_true_iff in H as [Hx Hr]. specialize (IH _ Hr).
+  cbn [Denorm.dwf_k] in H. apply andb_true_iff in H as [Hx Hr]. specialize (IH _ Hr).
   destruct x as [name i|name|kw|body|c]; cbn [dpieces map dpiece piece_matches tok_terms]; fold (dpieces l).
   5: exact IH.
   all: cbn [map_o tok_term]; erewrite (mk_term_dmatch pw _ _ _ Hx) by reflexivity; rewrite IH; reflexivity.
@@ -84,6 +93,7 @@ Proof.
   intros H. unfold parse_terms. rewrite <- dflat_pieces. rewrite (matches_pieces _ (dwf_lex_ok l false H)).
   apply (dterms_pieces l false H).
 Qed.
+End Lay.
 
 Lemma replace_type_terms ty l : ty <> TVariable -> map (replace_type ty) (tok_terms TVariable l) = tok_terms ty l.
 Proof.
